@@ -128,6 +128,7 @@ fn main() {
                 "ed14" => ed::gen_profile(&ctx, "ed14", ed::Profile::Complete, &mut sink),
                 "ed06" => ed::gen_profile(&ctx, "ed06", ed::Profile::Kill, &mut sink),
                 "ed05" => ed::gen_profile(&ctx, "ed05", ed::Profile::Undo, &mut sink),
+                "ed01" => ed::gen_profile(&ctx, "ed01", ed::Profile::Doc, &mut sink),
                 "keys" => keys::gen(&ctx, &mut sink),
                 "lb" | "lb4" => lb::gen(&ctx, target, &mut sink),
                 "raw" => rawmode::gen(&ctx, &mut sink),
